@@ -49,6 +49,8 @@ def _run_one(args):
                                 overrides={v['file']: new})
     new_v = [x for x in rep.violations
              if (x['rule'], x['key']) not in baseline]
+    if not new_v and rep.analysis_errors:
+      raise core.AnalysisError('; '.join(rep.analysis_errors)[:300])
     rules = sorted(set(x['rule'] for x in new_v))
   except core.AnalysisError as e:
     if v['expect'] == 'fire' and v.get('rule') == 'ANALYSIS-ERROR':
